@@ -94,7 +94,7 @@ def random_spd(rng, n, cond=50.0):
     return (Qm * ev) @ Qm.T
 
 
-def convex_qp(rng, n, m, var_kinds=None, row_kinds=None, fmt="coo", quad_rows=False, mag=1.0):
+def convex_qp(rng, n, m, var_kinds=None, row_kinds=None, fmt="coo", quad_rows=False, mag=1.0, row_scale=1.0):
     """Strictly convex QP (or mildly nonlinear if quad_rows) with a prescribed strictly feasible
     point; returns (problem, x0 in bounds, info)."""
     var_kinds = var_kinds or [VAR_KINDS[rng.integers(0, 5)] for _ in range(n)]
@@ -114,7 +114,7 @@ def convex_qp(rng, n, m, var_kinds=None, row_kinds=None, fmt="coo", quad_rows=Fa
             xu[j] = hi
         if k == "fixed":
             xl[j] = xu[j] = xf[j]
-    A = rng.standard_normal((m, n))
+    A = rng.standard_normal((m, n)) * row_scale
     for j, k in enumerate(var_kinds):
         if k == "fixed" and m:
             A[:, j] *= 0.1
@@ -424,6 +424,16 @@ class ExpGrowthProblem(Problem):
 
     def lag_hess(self, x, y):
         return sps.coo_matrix(np.diag(np.exp(x)))
+
+
+def boxlp_problem(rng, n):
+    """(Nearly) linear objective over a box with non-dyadic bounds: the minimiser is a vertex, reached by a clipped step."""
+    xl = -rng.uniform(0.05, 1.0, size=n)
+    xu = rng.uniform(0.05, 1.0, size=n)
+    cvec = rng.choice([-1.0, 1.0], size=n) * rng.uniform(0.5, 2.0, size=n)
+    prob = GenProblem(1e-3 * np.eye(n), cvec, np.zeros((0, n)), np.zeros((0, n)), np.zeros(0), np.zeros(0), np.zeros(0), xl, xu)
+    x0 = xl + (xu - xl) * rng.uniform(0.2, 0.8, size=n)
+    return prob, x0, {}
 
 
 def narrowrow_problem(rng, L):
